@@ -49,11 +49,12 @@ _THEOREMS = {
     "C09": ["c09_worker_no_panic"],
 }
 _PARTS = {
-    "C01": _part(["stop", "upd", "launch", "run"], ["c01.timeout"]),
+    "C01": _part(["stop", "upd", "launch", "run"], ["c01.timeout", "c01.ran"]),
     "C02": _part(["upd", "blocked", "rel", "launch"], ["c02.enable"]),
     "C04": _part(["launch", "rel", "run"], ["c04.handover"]),
     "C06": _part(["retr", "launch", "backlog", "run", "upd"], ["c06.given_back"]),
-    "C08": _part(["launch", "backlog", "run", "upd", "stop"], ["c08.worker"]),
+    # C08 also says "the resources reserved for it are released": conservation of the worker's allocator after every step
+    "C08": _part(["launch", "backlog", "run", "upd", "stop"], ["c08.worker", "c04.handover"]),
     "C09": _part(["launch", "rel", "stop", "upd", "retr", "run", "backlog", "blocked", "stopped"], ["c09.panic"]),
 }
 
